@@ -24,7 +24,7 @@ CLAIMED = {
 }
 
 CLAIMED["C03"] = (
-    "property-based testing: generated well-typed programs (oracle: no diagnostic) and single-fault injection with 27 rule-specific injectors plus curated missing-token faults (oracle: exactly the predicted message on the culprit node known by construction)",
+    "property-based testing: generated well-typed programs (oracle: no diagnostic) and single-fault injection with 27 rule-specific injectors plus curated missing-token faults (oracle: exactly the predicted message on the culprit node known by construction); 2-12 independent statement-level violations injected one after the other (oracle: exactly the predicted messages after every injection)",
     "Exploration: tens of thousands of generated valid programs must be diagnostic-free; for each of the 27 build/semantic message kinds an injector adds one violating construct at a random place and the check demands exactly one diagnostic with the rule's message on the culprit; missing-token faults demand the matching message at the end of the preceding token and containment in the declaration. Every diagnostic range is converted as the server publishes it and mapped back with an independent LSP position model.",
     "Trusted: the program generator's notion of well-typed SPL (DESIGN section 2 G1), the injectors' single-message predictions (checked against SPL's rules and the checker's do-not-report-twice policy), the LSP position model.",
     "DESIGN.md section 6 C03",
@@ -39,7 +39,7 @@ CLAIMED["C04"] = (
 )
 
 CLAIMED["C01"] = (
-    "property-based testing of edit histories with a differential oracle (incremental update vs fresh analysis of the same text, compared after every step on text, tokens, tree with attached diagnostics, symbol table, errors()); two generators: text-level histories over valid/damaged/soup/Unicode documents and validity-preserving model mutations delivered as minimal text differences; failures are triaged against a pinned copy of the repaired baseline",
+    "property-based testing of edit histories with a differential oracle (incremental update vs fresh analysis of the same text, compared after every step on text, tokens, tree with attached diagnostics, symbol table, errors()); three parts: text-level histories over valid/damaged/soup/Unicode documents and validity-preserving model mutations delivered as minimal text differences, and the same histories through the document broker (published diagnostics and the served analysis vs a fresh didOpen); failures are triaged against a pinned copy of the repaired baseline",
     "Exploration: 40k (700k) histories / 120k (2M) update steps per run. The oracle is a different code path of the same build (no old nodes, no token change). A divergence is a violation unless the pinned copy of the repaired baseline (/verif/pinned) fails on exactly the same (fresh previous state, change batch) input, which identifies the recorded finding C01-tail; the validity-preserving stratum is clean on the baseline and reports its suppressed count separately.",
     "Trusted: AnalyzedSource::new as reference; derived PartialEq on the public AST/token/table types; the pinned copy only ever explains failures that the unchanged tree shows on the identical input.",
     "DESIGN.md sections 5.3 and 6 C01",
@@ -66,25 +66,25 @@ CLAIMED["C09"] = (
     "Exploration: 20k (300k) (program, layout, options) cases through the real handler and broker.",
     "Trusted: reference lexer, client text model, generator; comments restricted to leading positions as the property's quantifier states.",
     "DESIGN.md section 6 C09",
-    "A",
+    "A+B",
 )
 CLAIMED["C10"] = (
     "property-based testing + enumeration of every token gap of sampled programs: comments with distinct texts are placed by construction, the formatted result must contain each exactly once and in order; failures are keyed by the syntactic site of the gap, sites where the unchanged tree always loses the comment are recorded findings",
-    "Exploration: every gap of 40 (600) programs plus 30k (400k) random placements of 1-5 comments; 22 gap sites are recorded findings (KNOWN-FINDING lines), any other site, a duplication, an invented comment or a reordering is a violation.",
+    "Exploration: every gap of 40 (600) programs plus 30k (400k) random placements of 1-5 comments; 22 gap sites are recorded findings (KNOWN-FINDING lines), any other site, a duplication, an invented comment or a reordering is a violation; a loss at a recorded site counts as that finding only if the comments of the formatted document equal those the pinned baseline formatter produces (DESIGN 5.4).",
     "Trusted: reference lexer's notion of a comment; site naming of the renderer (each site was all-kept or all-lost on the unchanged tree over 58k placements).",
     "DESIGN.md sections 5.2 and 6 C10",
     "A",
 )
 CLAIMED["C11"] = (
     "property-based testing with metamorphic oracles: format(format(x)) = null, format(layout1(tokens)) = format(layout2(tokens)), outputs under two option sets differ only in the indentation unit, every line indented by a whole number of units, brace-stack nesting sanity, no edit when nothing changes",
-    "Exploration: 20k (300k) cases x 4 formatting requests each.",
+    "Exploration: 20k (300k) cases x 6 formatting requests each in process; 600 (12k) sessions against the real binary with six formatting requests on one document under alternating option sets and across a full-text change, each answered like the same request on a fresh server.",
     "Trusted: generator and re-layout (same comments in the same gaps, different whitespace).",
     "DESIGN.md section 6 C11",
-    "A",
+    "A+B",
 )
 CLAIMED["C15"] = (
     "property-based testing: semantic token streams of arbitrary documents are decoded against the announced legend and matched against an independent lexer (well-formedness); for generated well-typed programs every identifier's kind and declaration modifier is compared with the binding known by construction",
-    "Exploration: 20k (300k) arbitrary documents + 20k (300k) well-typed programs. Occurrences whose global-scope name is also a local of the enclosing procedure form the recorded finding `shadowed-global-occurrence`; everything else must be exact.",
+    "Exploration: 20k (300k) arbitrary documents + 20k (300k) well-typed programs. Occurrences whose global-scope name is also a local of the enclosing procedure form the recorded class `shadowed-global-occurrence|want|got` (only with the token list of the pinned baseline, DESIGN 5.4); everything else must be exact. 1.2k (30k) sessions against the real binary with clients announcing no / all / a subset of token types: the stream is decoded against the legend of the server's own initialize response.",
     "Trusted: reference lexer, LSP position model, binding model of the generator.",
     "DESIGN.md section 6 C15",
     "A+B",
@@ -94,48 +94,48 @@ CLAIMED["C17"] = (
     "Exploration: 30k (500k) programs + 15k (250k) arbitrary documents.",
     "Trusted: generator, client line model.",
     "DESIGN.md section 6 C17",
-    "A",
+    "A+B",
 )
 
 CLAIMED["C12"] = (
     "property-based testing with a binding model known by construction: generated well-typed programs; for sampled identifier occurrences and cursor columns the four go-to requests are compared with the declaring name token of the bound entity; non-identifier positions must yield no location and no error",
-    "Exploration: 6k (120k) programs x up to 14 occurrences x 4 requests (about 400k (8M) requests) plus 3k (60k) programs with non-identifier positions. Occurrences whose spelling is both a local of the enclosing procedure and a global entity are the recorded class name-denotes-global-and-local; all others must be exact.",
+    "Exploration: 6k (120k) programs x up to 14 occurrences x 4 requests (about 400k (8M) requests) plus 3k (60k) programs with non-identifier positions. Occurrences whose spelling is both a local of the enclosing procedure and a global entity are the recorded class name-denotes-global-and-local (12 listed manifestations by request, occurrence class, wanted and returned target; only with the answer of the pinned baseline, DESIGN 5.2/5.4); all others must be exact. End-to-end part: the real binary's answers equal the handler's.",
     "Trusted: generator's scoping model (locals before globals, parameter types in global scope, name equivalence of array types through aliases), client position model.",
     "DESIGN.md section 6 C12",
     "A+B",
 )
 CLAIMED["C13"] = (
     "property-based testing with occurrence sets known by construction (two-directional set equality) and a metamorphic rename round trip (apply edits with the client model, same diagnostics, rename back restores the text); prepareRename/rename agreement",
-    "Exploration: 8k (150k) programs x up to 10 occurrences x (references, prepareRename, rename, re-analysis, rename back) plus non-identifier positions.",
+    "Exploration: 8k (150k) programs x up to 10 occurrences x (references, prepareRename, rename, re-analysis, rename back) plus non-identifier positions; ambiguous names are a recorded class with 10 listed manifestations, accepted only with the pinned baseline's ranges (DESIGN 5.4); end-to-end part against the real binary.",
     "Trusted: generator's binding model; client edit model. Renaming `main` and predefined entities is outside the diagnostics-preservation claim (documented).",
     "DESIGN.md section 6 C13",
-    "A",
+    "A+B",
 )
 CLAIMED["C14"] = (
     "property-based testing: hover text and range vs the signature rendered from the generator's model (resolved types, reference markers, documentation lines in order); signature help at every token boundary inside argument lists vs declared signature, parameter entries and comma count",
-    "Exploration: 8k (150k) programs for hover (up to 14 occurrences each) and 8k (150k) for signature help (up to 8 calls, all token boundaries plus random offsets): about 600k (10M) requests.",
+    "Exploration: 8k (150k) programs for hover (up to 14 occurrences each) and 8k (150k) for signature help (up to 8 calls, all token boundaries plus random offsets): about 600k (10M) requests; ambiguous names: 2 listed manifestations, accepted only with the pinned baseline's hover signature; end-to-end part against the real binary.",
     "Trusted: generator's model and its rendering of signatures (the server's Display implementations are not used by the oracle).",
     "DESIGN.md section 6 C14",
-    "A",
+    "A+B",
 )
 CLAIMED["C16"] = (
     "property-based testing over cursor positions classified by construction (token sites): completion responses compared as sorted label lists per item kind with the scope model (parameters+locals, declared+predefined procedures, declared types+int, declaration starters only at top level, no foreign locals)",
-    "Exploration: 40k (600k) (program, position) cases over eight position classes, each with and without whitespace in front of the cursor. Positions directly behind a token (nothing typed) are the recorded tight findings; positions behind `=`/`of` in type expressions are not in the property's quantifier and not generated.",
+    "Exploration: 40k (600k) (program, position) cases over eight position classes, each with and without whitespace in front of the cursor. A metamorphic part compares completion after every notification of an edit history with completion in a freshly opened document. Positions directly behind a token (nothing typed) are the recorded tight findings (8 signatures, accepted only with the pinned baseline's variable / function / type labels); positions behind `=`/`of` in type expressions are not in the property's quantifier and not generated.",
     "Trusted: generator's scope model; classification of gaps by token site.",
     "DESIGN.md section 6 C16",
-    "A",
+    "A+B",
 )
 
 CLAIMED["C02"] = (
     "property-based testing / fuzzing with a crash oracle plus response accounting: generated documents of all strata with edit histories; in process all 13 handlers, the broker and the analysis run under catch_unwind with a panic-site signature; against the real binary generated sessions must get one result response per request, strict frames, exit status 0",
-    "Exploration: 12k (250k) in-process cases (about 650k (13M) handler calls) and 1.5k (40k) sessions of 20-60 messages against the release binary. Held = no panic, no handler error, no unanswered request in the explored space.",
+    "Exploration: 12k (250k) in-process cases (about 650k (13M) handler calls) and 1.5k (40k) sessions of 20-60 messages against the release binary (batched and range-less changes, Content-Type headers, documents of 66-90 KiB); a case that does not terminate within the in-process watchdog is a violation. Held = no panic, no handler error, no unanswered request in the explored space.",
     "Trusted: the session driver's strict frame parser; the nesting bound (stack exhaustion beyond it is outside the property); well-formed params and integer ids.",
     "DESIGN.md section 6 C02",
     "A+B",
 )
 CLAIMED["C18"] = (
-    "model-based testing against the real binary: all sessions up to length 3 (4) over the 8-symbol message alphabet exhaustively plus random longer sessions, compared with a lifecycle state machine (responses by id, error codes, exit status); fault injection: end of input after random byte prefixes with a watchdog",
-    "Exploration with a completely enumerated sub-space (584 (4680) short sessions) plus 2.5k (50k) random sessions and 6k (150k) end-of-input prefixes. Termination is judged against a 20 s watchdog after three attempts.",
+    "model-based testing against the real binary: all sessions up to length 3 (4) over the 9-symbol message alphabet exhaustively plus random longer sessions (long phases, ids from 0 / negative / near i32::MAX, Content-Type headers, stdin kept open after exit), compared with a lifecycle state machine (responses by id, error codes, exit status); fault injection: end of input after random byte prefixes with a watchdog",
+    "Exploration with a completely enumerated sub-space (819 (7380) short sessions) plus 2.5k (50k) random sessions and 6k (150k) end-of-input prefixes. Termination is judged against a 20 s watchdog after three attempts.",
     "Trusted: the lifecycle model transcribed from the property statement (the window between initialize and initialized accepts both rejection codes); strict frame parser.",
     "DESIGN.md section 6 C18",
     "B",
@@ -148,8 +148,8 @@ CLAIMED["C19"] = (
     "B",
 )
 CLAIMED["C20"] = (
-    "model-based testing under load against the real binary: pipelined bursts of 100-800 messages over 2-5 URIs (incl. URIs differing only in scheme/authority) with back-pressure, checked against a per-URI client text model through the guarded $/verif/text request and hover, response order, final diagnostics (vs an unloaded in-process replay), capability gating, closed documents",
-    "Exploration: 1.2k (20k) bursts x 2 schedules. Scheduler interleavings are sampled, not controlled (see DESIGN section 10).",
+    "model-based testing under load against the real binary: pipelined bursts of 100-800 messages over 2-5 (one burst in eight: 17-32) URIs (incl. URIs differing only in scheme/authority) with back-pressure, checked against a per-URI client text model through the guarded $/verif/text request and hover, response order, final diagnostics (vs an unloaded in-process replay), capability gating, closed documents",
+    "Exploration: 600 (12k) bursts x 2 schedules, half of them with floods of 40-300 consecutive changes. Scheduler interleavings are sampled, not controlled (see DESIGN section 10).",
     "Trusted: client text model; the in-process replay as reference for the final diagnostics (C01 owns incremental = fresh).",
     "DESIGN.md section 6 C20",
     "B",
